@@ -37,7 +37,7 @@ def run(tier):
 
     def sig(clause, e):
         c = e["c"]
-        return {"clause": clause, "malformed": c["malformed"], "forged": c["xff"] != "absent" or c["xri"] != "absent",
+        return {"clause": clause, "malformed": c["malformed"], "mkind": c.get("mkind"), "forged": c["xff"] != "absent" or c["xri"] != "absent",
                 "authz": c["authz"], "endpoint": c["endpoint"], "family": c["family"], "status": e["o"]["status"]}
     cases.judge(chk, "ObsAdminTrace", "ObsAdminTrace.cfg", tp, sig, "admin")
     chk.sample({"case": allc[0]})
